@@ -9,6 +9,7 @@ from vf.props import _session as SE
 from vf.props import _play as PL
 
 ID = 'C13'
+USES_SIM = True
 LEVEL = 'fault_enumeration'
 KINDS_AUCTION = ['insufficient bid', 'inadmissible double', 'inadmissible redouble', 'unparseable call', 'call by the wrong name']
 KINDS_PLAY = ['unparseable card', 'card held by another seat', 'card already played', 'empty card', 'card of a non-existent rank']
